@@ -84,11 +84,11 @@ META.update({
               'Trusted: inspect.signature; kw-only/positional-only parameters belong to C18.'),
     'C18': _m('runtime monitoring: exhaustive grid of generated def statements through six description routes vs inspect.signature',
               '3.18', 'Held on the complete 756-function grid x 6 routes and the shipped ABC interfaces.', 'Trusted: inspect.signature.'),
-    'C11': _m('runtime monitoring + sanitizers: enumerated callback-point x action x entry-point fault injection with answer oracle and cache-ownership audit; leak meters; thread stress with generation-stamped values and quiescence oracle; mutation-window and subscription races with sys.monitoring yield injection; valgrind memcheck (deciding for freed-memory access) and ASan/UBSan on the rebuilt extension',
-              '3.11', 'Held on the enumerated fault product (about 2400 reached cells per run in py and c) and on the recorded thread schedules; '
+    'C11': _m('runtime monitoring + sanitizers: enumerated callback-point x action x entry-point fault injection with answer oracle and cache-ownership audit; leak meters; thread stress with generation-stamped values and quiescence oracle; mutation-window (incl. rebuild() and a lookup thread scheduled inside it) and subscription races with sys.monitoring yield injection; valgrind memcheck (deciding for freed-memory access) and ASan/UBSan on the rebuilt extension',
+              '3.11', 'Held on the enumerated fault product (20 callback points x 16 actions x 10 entry points x 2 flavours x hit/miss, about 6600 reached cells per run and implementation, every callback point with its own floor) and on the recorded thread schedules; '
               'valgrind memcheck reports no error on the scripted cases run with the dict-free-list flood.  Says nothing about callback points the product does not contain or schedules the GIL did not produce.',
               'Trusted: valgrind memcheck with PYTHONMALLOC=malloc; cold-replay answers as the before/after reference; refcount ownership rule of the audit.'),
-    'C10': _m('runtime monitoring: differential trace monitor - the same seeded API program under PURE_PYTHON=1 and with the rebuilt C accelerator in separate processes, canonical traces compared step by step; ASan/UBSan and valgrind on the C side (thorough)',
+    'C10': _m('runtime monitoring: differential trace monitor - the same seeded API program under PURE_PYTHON=1 and with the rebuilt C accelerator in separate processes, canonical traces compared step by step (the recorded divergences are exercised by the last steps of every program, each compared on its own); ASan/UBSan and valgrind on the C side (thorough)',
               '3.10', 'Held on the recorded programs (thousands of steps per run, error-path grammar included); the first differing step is the witness.',
               'Trusted: canonical rendering (types of exceptions, not messages); gc.collect() before operations that consult the weak instance-declaration cache.'),
 })
